@@ -30,6 +30,8 @@ package httpcache
 //@   ensures lm != "" ==> hget(result.Header, "If-Modified-Since") == lm                      # name: if-modified-since
 //@   ensures result.Method == req.Method && result.URL == req.URL                             # name: same-line
 //@   ensures forall k string :: k != "If-None-Match" && k != "If-Modified-Since" ==> hget(result.Header, k) == hget(req.Header, k)   # name: other-fields-kept
+//@   ensures ccText(result.Header) == ccText(req.Header) && hget(result.Header, "Range") == hget(req.Header, "Range")                   # name: cache-control-and-range-kept
+//@   ensures result != req ==> result.Header != nil && fresh(result.Header)                                                               # name: fresh-header-when-cloned
 
 //@ func (*transport).roundTripTimed
 //@   property C18 C01
@@ -56,6 +58,8 @@ package httpcache
 //@   requires wired(r) && req != nil && stored != nil && stored.Data != nil && stored.Data.Header != nil && freshness != nil && freshness.Age != nil
 //@   requires noCacheQualified ==> noCacheFieldsSeq != nil
 //@   assigns map(stored.Data.Header), now
+//@   rangefunc 0 invariant forall j int :: 0 <= j && j < iter ==> !has(stored.Data.Header, canon(seqAt(noCacheFieldsSeq, j)))
+//@   ensures noCacheQualified ==> (forall j int :: 0 <= j && j < seqLen(noCacheFieldsSeq) && !cacheOwnField(canon(seqAt(noCacheFieldsSeq, j))) ==> !has(result0.Header, canon(seqAt(noCacheFieldsSeq, j))))   # name: qualified-no-cache-fields-stripped   props: C02
 //@   ensures result0 == stored.Data && result1 == nil                              # name: returns-stored
 //@   ensures upstreamCalls == old(upstreamCalls)                                    # name: no-upstream
 //@   ensures exists n int :: hget(result0.Header, "Age") == itoa(n) && n >= secsOf(old(fAge(freshness, now)))        # name: age-generated   props: C11
@@ -76,17 +80,21 @@ package httpcache
 //@   property C01 C02 C18 C20 C11
 //@   requires wired(r) && req != nil && stored != nil && stored.Data != nil && stored.Data.Header != nil && freshness != nil && freshness.Age != nil
 //@   requires !reqOIC(req)                                                 # name: not-only-if-cached   props: C18
+//@   requires req.Header != stored.Data.Header                             # name: request-header-not-shared
 //@   assigns *
 //@   ensures result0 == old(stored.Data) && result1 == nil                         # name: returns-stored
 //@   ensures upstreamCalls == old(upstreamCalls)                                    # name: no-upstream-in-foreground
 //@   ensures result0 != nil                                                         # name: non-nil
 //@   ensures exists n int :: hget(result0.Header, "Age") == itoa(n) && n >= secsOf(old(fAge(freshness, now)))        # name: age-generated   props: C11
 //@   ensures statusIs(result0.Header, "STALE", true)                                                                # name: stale-marked   props: C11
+//@   let ncW = unquote(dirsVal(old(ccText(stored.Data.Header)))["no-cache"])
+//@   ensures dirsHas(old(ccText(stored.Data.Header)))["no-cache"] ==> (forall j int :: 0 <= j && j < csvN(ncW) && !cacheOwnField(canon(csvAt(ncW, j))) ==> !has(result0.Header, canon(csvAt(ncW, j))))   # name: qualified-no-cache-fields-stripped   props: C02
 
 //@ func (*transport).handleCacheHit
 //@   property C01 C02 C18 C06 C11
 //@   requires wired(r) && req != nil && req.URL != nil && stored != nil && stored.Data != nil && stored.Data.Header != nil
 //@   requires req.Method == "GET" && hget(req.Header, "Range") == ""                       # name: plain-get   props: C06
+//@   requires req.Header != stored.Data.Header                                             # name: request-header-not-shared
 //@   let tq = old(ccText(req.Header))
 //@   let ts = old(ccText(stored.Data.Header))
 //@   let hq = dirsHas(tq)
@@ -103,6 +111,8 @@ package httpcache
 //@   ensures served ==> !unqualNoCacheA(hs, vs)                                          # name: response-no-cache-validated   props: C02
 //@   ensures served ==> !(hs["must-revalidate"] && A0 >= Lresp)                          # name: must-revalidate-validated     props: C02
 //@   ensures served ==> !hq["no-cache"]                                                  # name: request-no-cache-validated    props: C02
+//@   let nc = unquote(vs["no-cache"])
+//@   ensures served && hs["no-cache"] ==> (forall j int :: 0 <= j && j < csvN(nc) && !cacheOwnField(canon(csvAt(nc, j))) ==> !has(result0.Header, canon(csvAt(nc, j))))   # name: qualified-no-cache-fields-not-replayed   props: C02
 //@   ensures served ==> !(ccValidA(hq, vq, "max-age") && A0 > ccDurA(vq, "max-age") && !maxStaleOK(A0, Lreq, hq, vq))   # name: request-max-age-validated   props: C02
 //@   ensures hq["only-if-cached"] ==> upstreamCalls == old(upstreamCalls)                # name: only-if-cached-no-network     props: C18
 //@   ensures served ==> (exists n int :: hget(result0.Header, "Age") == itoa(n) && n >= secsOf(A0))               # name: age-not-under-reported   props: C11
